@@ -1,16 +1,25 @@
 #!/bin/bash
 # tools/try_seed.sh <PROP> <seed dir containing patch.diff demo.py notes.md> <seed-id>
-# 1. confirms the demo passes without / fails with the patch in a scratch worktree, and the pinned suite still passes with it
-# 2. applies the patch to /repo, runs the property's check (outputs redirected), and ALWAYS reverts /repo
+# Works in a scratch git worktree of /repo (created here, removed at exit):
+#  1. the demo passes without / fails with the patch, and the pinned suite still passes with it
+#  2. the property's check is run against the patched tree
+#     MODE=scratch (default): VERIF_REPO=<worktree> /verif/check ...      (/repo untouched; used while developing)
+#     MODE=repo:              git -C /repo apply; /verif/check ...; git -C /repo checkout -- .   (the official way)
 PROP=$1; SRC=$2; SID=$3; MODE=${MODE:-scratch}
-WT=$(mktemp -d /tmp/holopy-seed.XXXXXX); rmdir $WT
+WT=/tmp/wt-$PROP-eval-$$
 git -C /repo worktree add -q --detach $WT HEAD || exit 9
-cleanup() { git -C /repo worktree remove --force $WT 2>/dev/null; [ "$MODE" = "repo" ] && git -C /repo checkout -q -- . ; }
+OUT=$(mktemp -d /tmp/holopy-seedout.XXXXXX)
+cleanup() { git -C /repo worktree remove --force $WT 2>/dev/null; [ "$MODE" = "repo" ] && git -C /repo checkout -q -- . ; rm -rf "$OUT"; }
 trap cleanup EXIT
-mkdir -p $WT/seeded_out/x; cp $SRC/demo.py $WT/seeded_out/x/demo.py
-( cd $WT && PYTHONPATH=$WT timeout 600 /venv/bin/python seeded_out/x/demo.py >/dev/null 2>&1 ); CLEAN=$?
+mkdir -p /verif/seeded/$SID
+cp $SRC/patch.diff /verif/seeded/$SID/patch.diff
+# the demonstrations written by the sub-agents pin their own worktree path; make that check path-independent
+sed -e "s#^assert holopy.__file__.startswith(.*#pass  \# (path pin removed: run with PYTHONPATH=<worktree of /repo>)#" $SRC/demo.py > /verif/seeded/$SID/demo.py
+[ -f $SRC/notes.md ] && cp $SRC/notes.md /verif/seeded/$SID/notes.md
+mkdir -p $WT/seeded_out/x; cp /verif/seeded/$SID/demo.py $WT/seeded_out/x/demo.py
+( cd $WT && PYTHONPATH=$WT timeout 900 /venv/bin/python seeded_out/x/demo.py >/dev/null 2>&1 ); CLEAN=$?
 ( cd $WT && git apply $SRC/patch.diff ) || { echo "PATCH DOES NOT APPLY"; exit 8; }
-( cd $WT && PYTHONPATH=$WT timeout 600 /venv/bin/python seeded_out/x/demo.py >/dev/null 2>&1 ); BROKEN=$?
+( cd $WT && PYTHONPATH=$WT timeout 900 /venv/bin/python seeded_out/x/demo.py >/dev/null 2>&1 ); BROKEN=$?
 echo "demo: clean exit=$CLEAN, patched exit=$BROKEN"
 J=$WT/junit.xml
 ( cd $WT && /venv/bin/python -m pytest -q -p no:cacheprovider --timeout=900 --continue-on-collection-errors --junitxml=$J >/dev/null 2>&1 )
@@ -25,28 +34,22 @@ print("%d/%d" % (len(base & passed), len(base)))
 PY
 )
 echo "pinned suite with patch: $SUITE"
-OUT=$(mktemp -d /tmp/holopy-seedout.XXXXXX)
 if [ "$MODE" = "repo" ]; then
   git -C /repo apply $SRC/patch.diff
   VERIF_OUT=$OUT timeout 3000 /verif/check $PROP > $OUT/check.log 2>&1; RC=$?
   git -C /repo checkout -q -- .
   HOW="git -C /repo apply patch.diff; /verif/check $PROP; git -C /repo checkout -- ."
 else
-  # development mode: the check is pointed at the scratch worktree that has the patch applied (/repo untouched)
   VERIF_REPO=$WT VERIF_OUT=$OUT timeout 3000 /verif/check $PROP > $OUT/check.log 2>&1; RC=$?
   HOW="scratch worktree of /repo HEAD with patch.diff applied; VERIF_REPO=<worktree> /verif/check $PROP"
 fi
 grep -v '^WARNING' $OUT/check.log | cut -c1-260 | head -12
 echo "check exit=$RC"
-mkdir -p /verif/seeded/$SID
-cp $SRC/patch.diff $SRC/demo.py /verif/seeded/$SID/
-[ -f $SRC/notes.md ] && cp $SRC/notes.md /verif/seeded/$SID/notes.md
 VIOL=$(grep -c '^VIOLATION' $OUT/check.log)
 /venv/bin/python - <<PY
 import json
 json.dump({"property": "$PROP", "seed": "$SID", "demo_exit_clean": $CLEAN, "demo_exit_patched": $BROKEN, "pinned_suite_with_patch": "$SUITE",
-           "check_cmd": "$HOW", "check_exit": $RC, "violation_lines": $VIOL,
+           "check_cmd": "$HOW", "check_exit": $RC, "violation_lines": $VIOL, "detected": $RC == 1,
            "first_violations": [l.strip()[:300] for l in open("$OUT/check.log") if l.startswith(("VIOLATION", "  obligation", "UNDECIDED", "BROKEN"))][:8]},
           open("/verif/seeded/$SID/meta.json", "w"), indent=1)
 PY
-rm -rf $OUT
